@@ -5,6 +5,7 @@
 From Coq Require Import Reals List Bool Arith.
 From Coquelicot Require Import Complex.
 From QV Require Import Sem Mat2 Toff2 Chain McxModel IrProps IrPropsRot.
+From QV Require LdmcuCore Placed.
 Import ListNotations.
 Open Scope nat_scope.
 
@@ -35,3 +36,20 @@ Print Assumptions C15_rot_spectator.
 
 Example ex_wf : Forall swf (toffoli CNone 0 1 2) /\ ~ In 5 (squbits (SCX 0 2)).
 Proof. split. repeat constructor; simpl; auto. simpl. intros [H|[H|H]]; auto; discriminate. Qed.
+
+(* the alphabet of Ldmcu (controlled powers E t z of a one-parameter group per target): reversed order with negated exponents
+   undoes a gate list, for every family E with E t (a + b) = E t a * E t b, E t 0 = 1 *)
+Theorem C15_ldmcu_ir_inverse : forall (E : nat -> BinNums.Z -> mat2),
+  (forall t a b, E t (BinInt.Z.add a b) = mmul (E t a) (E t b)) -> (forall t, E t BinNums.Z0 = I2) ->
+  forall l, Forall (fun g => LdmcuCore.gc g <> LdmcuCore.gt g) l ->
+  forall psi, LdmcuCore.lrun E (l ++ LdmcuCore.linv_list l) psi = psi.
+Proof. exact LdmcuCore.linverse_right. Qed.
+Print Assumptions C15_ldmcu_ir_inverse.
+
+(* placement (composition into a larger circuit): a circuit of the mcx IR re-labelled through any injective map acts on the local
+   bits read through the map and leaves every other qubit of the basis state as it was *)
+Theorem C15_placed_any : forall (f : nat -> nat) (w : nat), (forall i j, i < w -> j < w -> f i = f j -> i = j) ->
+  forall c, Forall (Placed.bndw w) c -> forall Psi b,
+  srun (map (Placed.relabelf f) c) Psi b = srun c (fun y => Psi (Placed.push f w b y)) (Placed.pull f w b).
+Proof. exact Placed.srun_placed. Qed.
+Print Assumptions C15_placed_any.
